@@ -958,8 +958,31 @@ func (r *Runner) afterSched(s *vrt.Sched) {
 	}
 }
 
+// preseed creates the empty high-numbered data file of a "long-lived" directory (Case.BaseFile).
+func (r *Runner) preseed() {
+	if r.C.BaseFile == 0 {
+		return
+	}
+	dir := filepath.Join(r.Root, "db")
+	if err := vos.MkdirAll(dir, 0o755); err != nil {
+		r.Infra = err.Error()
+		return
+	}
+	f, err := vos.OpenFile(filepath.Join(dir, fmt.Sprintf("%09d.data", r.C.BaseFile)), os.O_CREATE|os.O_RDWR, 0o644)
+	if err != nil {
+		r.Infra = err.Error()
+		return
+	}
+	_ = f.Close()
+	r.inc("high_file_id_runs")
+}
+
 func (r *Runner) seqMain() {
 	r.step = -1
+	r.preseed()
+	if r.Infra != "" {
+		return
+	}
 	r.judging = r.judges("open")
 	if !r.openDB() {
 		if r.V == nil && r.Aborted == "" {
